@@ -53,10 +53,11 @@ def nt_classes(tree: ast.Module) -> Dict[str, List[Tuple[str, Optional[ast.expr]
 
 
 class _Rewrite(ast.NodeTransformer):
-    def __init__(self, classes, field_index: Dict[str, int], blocked: Set[Tuple[int, str]]):
+    def __init__(self, classes, field_index: Dict[str, int], blocked: Set[Tuple[int, str]], known: Optional[Set[Tuple[int, str]]] = None):
         self.classes = classes
         self.field_index = field_index
         self.blocked = blocked        # (id of function node, variable name) pairs known not to be records
+        self.known = known or set()   # (id of function node, variable name) pairs annotated as / built from a record class
         self.fn_stack: List[ast.AST] = []
 
     def _visit_fn(self, node):
@@ -104,8 +105,8 @@ class _Rewrite(ast.NodeTransformer):
             return node
         if any((id(fn), v.id) in self.blocked for fn in self.fn_stack):
             return node
-        if getattr(node, '_is_method', False):
-            return node
+        if getattr(node, '_is_method', False) and not any((id(fn), v.id) in self.known for fn in self.fn_stack):
+            return node      # `x.field(...)` on something not known to be a record: may be a real method
         s = ast.Subscript(value=v, slice=ast.Constant(value=self.field_index[node.attr]), ctx=ast.Load())
         ast.copy_location(s, node)
         ast.copy_location(s.slice, node)
@@ -146,8 +147,23 @@ def desugar_namedtuples(tree: ast.Module) -> int:
     for n in ast.walk(tree):
         if isinstance(n, ast.Call) and isinstance(n.func, ast.Attribute):
             n.func._is_method = True  # type: ignore[attr-defined]
+    known: Set[Tuple[int, str]] = set()
+    for fn in ast.walk(tree):
+        if isinstance(fn, (ast.FunctionDef, ast.AsyncFunctionDef)):
+            a = fn.args
+            for p in a.args + a.kwonlyargs + a.posonlyargs:
+                if p.annotation is not None and any(c in ast.unparse(p.annotation) for c in classes):
+                    known.add((id(fn), p.arg))
+            for n in ast.walk(fn):
+                tg = v = None
+                if isinstance(n, ast.Assign) and len(n.targets) == 1:
+                    tg, v = n.targets[0], n.value
+                elif isinstance(n, ast.AnnAssign) and n.value is not None:
+                    tg, v = n.target, n.value
+                if isinstance(tg, ast.Name) and isinstance(v, ast.Call) and isinstance(v.func, ast.Name) and v.func.id in classes:
+                    known.add((id(fn), tg.id))
     before = sum(1 for _ in ast.walk(tree))
-    rw = _Rewrite(classes, field_index, blocked)
+    rw = _Rewrite(classes, field_index, blocked, known)
     rw.visit(tree)
     # `rec._asdict()` for a local bound (once) to a record built here: the dict display of its fields
     for fn in [n for n in ast.walk(tree) if isinstance(n, (ast.FunctionDef, ast.AsyncFunctionDef))]:
@@ -346,6 +362,9 @@ def inline_aliases(tree: ast.Module) -> int:
                 return bound.get(r, 0) == 1
             if r in bound:
                 st = assigns.get(r)
+                if st is None and bound[r] == 1:
+                    # bound once, by a def: a nested function's name
+                    return any(isinstance(n_, _FN) and n_.name == r for n_ in _own(fn))
                 return bound[r] == 1 and st is not None and not _in_loop(fn, st)
             if r == 'self':
                 return True         # free variable `self` of a closure inside a method
@@ -388,7 +407,7 @@ def inline_aliases(tree: ast.Module) -> int:
             if not chain:
                 # y = x  (x: self, a parameter, a single-assignment local, or a single-assignment variable of an
                 # enclosing function / of the module that no closure rebinds)
-                if root == 'self' or root in params or root in assigns or root not in bound:
+                if root == 'self' or root in params or root in assigns or root not in bound or bound.get(root) == 1:
                     subst[a] = v
                 continue
             if any(c in props for c in chain):
@@ -729,6 +748,10 @@ def _visit_skipping_defs(tr: ast.NodeTransformer, st: ast.AST) -> None:
     (they are handled as scopes of their own)."""
     class W(ast.NodeTransformer):
         def visit_FunctionDef(self, n):
+            # defaults and decorators are evaluated in the enclosing scope
+            n.args.defaults = [self.visit(d) for d in n.args.defaults]
+            n.args.kw_defaults = [self.visit(d) if d is not None else None for d in n.args.kw_defaults]
+            n.decorator_list = [self.visit(d) for d in n.decorator_list]
             return n
         visit_AsyncFunctionDef = visit_FunctionDef
 
@@ -1215,8 +1238,38 @@ def inline_exception_tuples(tree: ast.Module) -> int:
                 and all(isinstance(e, (ast.Name, ast.Attribute)) for e in val.elts):
             consts[tgt] = val
     n_ = 0
-    if not consts:
-        return 0
+    # class-level constants `_flush_on = (TimeoutError, CancelledError)` used as `except self._flush_on:` in the methods
+    # of that class: usable when the attribute name is bound once in the whole module (no instance / subclass override)
+    attr_stores: Dict[str, int] = {}
+    for n in ast.walk(tree):
+        if isinstance(n, ast.Attribute) and isinstance(n.ctx, (ast.Store, ast.Del)):
+            attr_stores[n.attr] = attr_stores.get(n.attr, 0) + 1
+    for c in ast.walk(tree):
+        if not isinstance(c, ast.ClassDef):
+            continue
+        cconsts: Dict[str, ast.Tuple] = {}
+        for st in c.body:
+            tgt = val = None
+            if isinstance(st, ast.Assign) and len(st.targets) == 1 and isinstance(st.targets[0], ast.Name):
+                tgt, val = st.targets[0].id, st.value
+            elif isinstance(st, ast.AnnAssign) and isinstance(st.target, ast.Name) and st.value is not None:
+                tgt, val = st.target.id, st.value
+            if tgt and isinstance(val, ast.Tuple) and val.elts and all(isinstance(e, (ast.Name, ast.Attribute)) for e in val.elts):
+                n_class_bindings = sum(1 for c2 in ast.walk(tree) if isinstance(c2, ast.ClassDef) for st2 in c2.body
+                                       for t2 in ((st2.targets if isinstance(st2, ast.Assign) else [st2.target] if isinstance(st2, ast.AnnAssign) else []))
+                                       if isinstance(t2, ast.Name) and t2.id == tgt)
+                if n_class_bindings == 1 and attr_stores.get(tgt, 0) == 0:
+                    cconsts[tgt] = val
+        if not cconsts:
+            continue
+        for h in ast.walk(c):
+            if isinstance(h, ast.ExceptHandler) and isinstance(h.type, ast.Attribute) and h.type.attr in cconsts \
+                    and isinstance(h.type.value, ast.Name) and h.type.value.id in ('self', 'cls', c.name):
+                new = _clone_expr(cconsts[h.type.attr])
+                for y in ast.walk(new):
+                    ast.copy_location(y, h.type)
+                h.type = new
+                n_ += 1
     for h in ast.walk(tree):
         if isinstance(h, ast.ExceptHandler) and isinstance(h.type, ast.Name) and h.type.id in consts:
             new = _clone_expr(consts[h.type.id])
@@ -1225,6 +1278,375 @@ def inline_exception_tuples(tree: ast.Module) -> int:
             h.type = new
             n_ += 1
     return n_
+
+
+def _stable_names(fn: ast.AST) -> Set[str]:
+    """Parameters of *fn* that are never re-bound and locals bound exactly once (assignment or def) in its own body,
+    not written by nested functions."""
+    bound = _bound_names(fn)
+    out = {n for n, k in bound.items() if k == 1}
+    for nf in ast.walk(fn):
+        if nf is not fn and isinstance(nf, _FN):
+            for x in ast.walk(nf):
+                if isinstance(x, (ast.Nonlocal, ast.Global)):
+                    out -= set(x.names)
+    return out
+
+
+def project_stable_records(tree: ast.Module) -> int:
+    """`opts = (sep, parse, parse_keys)` (bound once, elements are stable names of the same function) makes `opts[1]` another
+    spelling of `parse` - in the function and in the closures that capture `opts`."""
+    count = 0
+    for fn in [n for n in ast.walk(tree) if isinstance(n, _FN)]:
+        stable = _stable_names(fn)
+        recs: Dict[str, ast.Tuple] = {}
+        for n in _own(fn):
+            if isinstance(n, (ast.Assign, ast.AnnAssign)) and getattr(n, 'value', None) is not None:
+                tg = n.targets[0] if isinstance(n, ast.Assign) and len(n.targets) == 1 else getattr(n, 'target', None)
+                if isinstance(tg, ast.Name) and tg.id in stable and isinstance(n.value, ast.Tuple) and n.value.elts \
+                        and all(isinstance(e, ast.Name) and e.id in stable and e.id != tg.id for e in n.value.elts) and not _in_loop(fn, n):
+                    recs[tg.id] = n.value
+        if not recs:
+            continue
+        # names re-bound by nested scopes shadow the record / its elements there: stay out of those scopes
+        def rewrite(node, shadow: Set[str]):
+            nonlocal count
+            for f_, v_ in ast.iter_fields(node):
+                items = v_ if isinstance(v_, list) else [v_]
+                for i_, ch in enumerate(items):
+                    if not isinstance(ch, ast.AST):
+                        continue
+                    if isinstance(ch, _FN + (ast.Lambda,)) and ch is not fn:
+                        if isinstance(ch, ast.Lambda):
+                            a = ch.args
+                            inner = {p_.arg for p_ in a.posonlyargs + a.args + a.kwonlyargs}
+                        else:
+                            inner = set(_bound_names(ch))
+                        rewrite(ch, shadow | inner)
+                        continue
+                    if isinstance(ch, ast.Subscript) and isinstance(ch.ctx, ast.Load) and isinstance(ch.value, ast.Name) and ch.value.id in recs \
+                            and ch.value.id not in shadow and isinstance(ch.slice, ast.Constant) and isinstance(ch.slice.value, int) \
+                            and not isinstance(ch.slice.value, bool) and -len(recs[ch.value.id].elts) <= ch.slice.value < len(recs[ch.value.id].elts):
+                        el = recs[ch.value.id].elts[ch.slice.value]
+                        if el.id not in shadow:
+                            new = ast.Name(id=el.id, ctx=ast.Load())
+                            ast.copy_location(new, ch)
+                            new._projected_from = ch.value.id  # type: ignore[attr-defined]
+                            if isinstance(v_, list):
+                                v_[i_] = new
+                            else:
+                                setattr(node, f_, new)
+                            count += 1
+                            continue
+                    rewrite(ch, shadow)
+        rewrite(fn, set())
+    return count
+
+
+def nest_private_helpers(tree: ast.Module) -> int:
+    """A private module-level function that only one top-level function F uses (calls it, or binds it with
+    functools.partial, in F or in F's nested functions) and that receives, for some parameter, always the same stable
+    variable of F is the closure it was extracted from: the parameter becomes that free variable and the definition
+    moves back into F (`_try_parse(x, opts)` called as `_try_parse(key, opts)` everywhere -> nested `_try_parse(x)`)."""
+    count = 0
+    tops = [st for st in tree.body if isinstance(st, _FN)]
+    by_name = {}
+    for st in tops:
+        by_name.setdefault(st.name, []).append(st)
+    for G in list(tops):
+        if not G.name.startswith('_') or G.name.startswith('__') or len(by_name[G.name]) != 1 or G.decorator_list:
+            continue
+        a = G.args
+        if a.vararg or a.kwarg or a.posonlyargs:
+            continue
+        # every reference
+        refs = [n for n in ast.walk(tree) if isinstance(n, ast.Name) and n.id == G.name and isinstance(n.ctx, ast.Load)]
+        if not refs or any(isinstance(n, ast.Name) and n.id == G.name and isinstance(n.ctx, (ast.Store, ast.Del)) for n in ast.walk(tree)):
+            continue
+        hosts = set()
+        ok = True
+        uses = []       # (kind, call node) kind in {'call', 'partial'}
+        for r_ in refs:
+            top = r_
+            while getattr(top, '_alias_parent', None) is not None and not isinstance(getattr(top, '_alias_parent'), ast.Module):
+                top = top._alias_parent
+            if not isinstance(top, _FN) or top is G:
+                ok = False
+                break
+            hosts.add(id(top))
+            par = getattr(r_, '_alias_parent', None)
+            if isinstance(par, ast.Call) and par.func is r_:
+                uses.append(('call', par))
+            elif isinstance(par, ast.Call) and par.args and par.args[0] is r_ and ast.unparse(par.func).split('.')[-1] == 'partial':
+                uses.append(('partial', par))
+            else:
+                ok = False
+                break
+        if not ok or len(hosts) != 1:
+            continue
+        F = next(t for t in tops if id(t) in hosts)
+        if any(isinstance(x, (ast.Global, ast.Nonlocal)) for x in ast.walk(G)):
+            continue
+        stable = _stable_names(F)
+        params = [x.arg for x in a.args] + [x.arg for x in a.kwonlyargs]
+        pos_params = [x.arg for x in a.args]
+        bound_to: Dict[str, Set[str]] = {p_: set() for p_ in params}
+        usable = True
+        for kind, c in uses:
+            args_ = c.args if kind == 'call' else c.args[1:]
+            if any(isinstance(x, ast.Starred) for x in args_) or any(k.arg is None for k in c.keywords):
+                usable = False
+                break
+            seen_here: Set[str] = set()
+            for i_, x in enumerate(args_):
+                if i_ >= len(pos_params):
+                    usable = False
+                    break
+                bound_to[pos_params[i_]].add(x.id if isinstance(x, ast.Name) else '<expr>')
+                seen_here.add(pos_params[i_])
+            for k in c.keywords:
+                if k.arg not in bound_to:
+                    usable = False
+                    break
+                bound_to[k.arg].add(k.value.id if isinstance(k.value, ast.Name) else '<expr>')
+                seen_here.add(k.arg)
+            for p_ in params:
+                if p_ not in seen_here:
+                    bound_to[p_].add('<unbound>')
+        if not usable:
+            continue
+        g_bound = _bound_names(G)
+        first_ref = min(getattr(r_, 'lineno', 0) for r_ in refs)
+        f_bound = _bound_names(F)
+
+        def settled(v: str) -> bool:
+            """every binding of v in F is a plain statement of F's own body (def / assignment, outside loops) that comes
+            before the first reference to the helper: whenever the helper runs, v has its final value"""
+            if v in stable:
+                return True
+            sites = []
+            for n_ in _own(F):
+                if isinstance(n_, _FN) and n_.name == v:
+                    sites.append(n_)
+                elif isinstance(n_, ast.Name) and n_.id == v and isinstance(n_.ctx, ast.Store):
+                    sites.append(n_)
+                elif isinstance(n_, ast.Name) and n_.id == v and isinstance(n_.ctx, ast.Del):
+                    return False
+            if not sites or len(sites) != f_bound.get(v, 0):
+                return False
+            for nf in ast.walk(F):
+                if nf is not F and isinstance(nf, _FN) and any(isinstance(x, (ast.Nonlocal, ast.Global)) and v in x.names for x in ast.walk(nf)):
+                    return False
+            return all(getattr(s_, 'end_lineno', getattr(s_, 'lineno', 10 ** 9)) < first_ref and not _in_loop(F, s_) for s_ in sites)
+        closure = {}
+        for p_ in params:
+            vs = bound_to[p_]
+            if len(vs) == 1:
+                v = next(iter(vs))
+                if v not in ('<expr>', '<unbound>') and settled(v) and g_bound.get(p_, 0) == 1 and (v == p_ or v not in g_bound):
+                    closure[p_] = v
+        # positional parameters can only be dropped from the end backwards or by keyword use; keep it simple: a closure
+        # parameter must be passed by keyword everywhere or be the last positional ones
+        if not closure or len(closure) == len(params):
+            continue        # (a helper whose every parameter is context is a plain function of that context: nothing to gain)
+        keep_pos = [p_ for p_ in pos_params if p_ not in closure]
+        # positional closure parameters must come after every kept positional parameter
+        idx = [i for i, p_ in enumerate(pos_params) if p_ in closure]
+        if idx and min(idx) < len(keep_pos):
+            # would shift positions of kept parameters: only allowed if every use passes the kept ones positionally before it
+            continue
+        # a partial use must be left with no bound arguments (then it is the function itself)
+        for kind, c in uses:
+            if kind == 'partial':
+                rest_pos = [x for i_, x in enumerate(c.args[1:]) if pos_params[i_] not in closure]
+                rest_kw = [k for k in c.keywords if k.arg not in closure]
+                if rest_pos or rest_kw:
+                    usable = False
+        if not usable:
+            continue
+        # nested functions of G that re-bind a captured name would change meaning
+        if any(isinstance(x, _FN + (ast.Lambda,)) for x in ast.walk(G) if x is not G):
+            continue
+        # 1. rewrite G: drop the parameters, rename their loads
+        ren = {p_: v for p_, v in closure.items() if p_ != v}
+        for x in ast.walk(G):
+            if isinstance(x, ast.Name) and x.id in ren:
+                x.id = ren[x.id]
+        ndef = len(a.defaults)
+        pos_defaults = dict(zip(reversed(pos_params), reversed(a.defaults)))
+        a.args = [x for x in a.args if x.arg not in closure]
+        a.defaults = [pos_defaults[x.arg] for x in a.args if x.arg in pos_defaults]
+        kd = [(x, d) for x, d in zip(a.kwonlyargs, a.kw_defaults) if x.arg not in closure]
+        a.kwonlyargs = [x for x, _ in kd]
+        a.kw_defaults = [d for _, d in kd]
+        # 2. rewrite the uses
+        for kind, c in uses:
+            if kind == 'call':
+                c.args = [x for i_, x in enumerate(c.args) if pos_params[i_] not in closure]
+                c.keywords = [k for k in c.keywords if k.arg not in closure]
+            else:
+                par = getattr(c, '_alias_parent', None)
+                new = ast.Name(id=G.name, ctx=ast.Load())
+                ast.copy_location(new, c)
+                for f_, v_ in ast.iter_fields(par):
+                    if v_ is c:
+                        setattr(par, f_, new)
+                    elif isinstance(v_, list):
+                        for i_, y in enumerate(v_):
+                            if y is c:
+                                v_[i_] = new
+        # 3. move the definition into F (after the docstring)
+        tree.body.remove(G)
+        pos_ins = 1 if (F.body and isinstance(F.body[0], ast.Expr) and isinstance(F.body[0].value, ast.Constant)) else 0
+        F.body.insert(pos_ins, G)
+        G._synthetic = True        # type: ignore[attr-defined]  (not a child of F in the compiler's symbol table)
+        G._nested_from_module = True  # type: ignore[attr-defined]
+        F._added_locals = set(getattr(F, '_added_locals', set())) | {G.name}  # type: ignore[attr-defined]
+        count += 1
+        set_alias_parents(tree)
+    return count
+
+
+def split_ifexp_assign(tree: ast.Module) -> int:
+    """`x = A if T else B` -> `if T: x = A` / `else: x = B` for a plain local name x (T is evaluated once, then exactly one of
+    A, B, then the store - as in the statement form); a branch that would be the no-op `x = x` is dropped."""
+    count = 0
+    for node in ast.walk(tree):
+        for field in ('body', 'orelse', 'finalbody'):
+            body = getattr(node, field, None)
+            if not isinstance(body, list):
+                continue
+            for i, st in enumerate(body):
+                tg = v = None
+                if isinstance(st, ast.Assign) and len(st.targets) == 1:
+                    tg, v = st.targets[0], st.value
+                elif isinstance(st, ast.AnnAssign) and st.value is not None:
+                    tg, v = st.target, st.value
+                if not (isinstance(tg, ast.Name) and isinstance(v, ast.IfExp)):
+                    continue
+
+                def arm(val: ast.AST) -> List[ast.stmt]:
+                    if isinstance(val, ast.Name) and val.id == tg.id:
+                        return []
+                    a = ast.Assign(targets=[ast.Name(id=tg.id, ctx=ast.Store())], value=val)
+                    ast.copy_location(a, st)
+                    ast.copy_location(a.targets[0], tg)
+                    return [a]
+                b1, b2 = arm(v.body), arm(v.orelse)
+                new = ast.If(test=v.test, body=b1 or [ast.copy_location(ast.Pass(), st)], orelse=b2)
+                ast.copy_location(new, st)
+                new._from_ifexp = True  # type: ignore[attr-defined]
+                body[i] = new
+                count += 1
+    return count
+
+
+def fold_unpassed_defaults(tree: ast.Module) -> int:
+    """A parameter with a constant default of a *private* function (nested function, module-level `_f`, method `_m`) that
+    no call in the module ever passes - and the function is never used as a value, so there are no other callers - is
+    that constant.  An `if` whose test is `p is None` / `p is not None` / `p` / `not p`, reached before `p` is re-bound,
+    is replaced by the branch taken (`def _arm(self, coro, *, _timeout=None): if _timeout is None: _timeout = self.timeout`)."""
+    count = 0
+    fns = [n for n in ast.walk(tree) if isinstance(n, _FN)]
+    # how each function name is used
+    by_name: Dict[str, List[ast.AST]] = {}
+    for f in fns:
+        by_name.setdefault(f.name, []).append(f)
+    for f in fns:
+        if not f.name.startswith('_') or (f.name.startswith('__') and f.name.endswith('__')):
+            continue
+        if len(by_name[f.name]) != 1 or f.decorator_list and any(ast.unparse(d).split('.')[-1] not in ('staticmethod',) for d in f.decorator_list):
+            continue
+        a = f.args
+        if a.vararg or a.kwarg:
+            continue
+        pos = [x.arg for x in a.posonlyargs + a.args]
+        is_method = isinstance(getattr(f, '_alias_parent', None), ast.ClassDef) and not any(ast.unparse(d) == 'staticmethod' for d in f.decorator_list)
+        defaults: Dict[str, ast.AST] = {}
+        for nm, d in zip(reversed(pos), reversed(a.defaults)):
+            defaults[nm] = d
+        for kw, d in zip(a.kwonlyargs, a.kw_defaults):
+            if d is not None:
+                defaults[kw.arg] = d
+        defaults = {k: v for k, v in defaults.items() if isinstance(v, ast.Constant) and (v.value is None or isinstance(v.value, (bool, int, float, str)))}
+        if not defaults:
+            continue
+        # every reference to the name must be the callee of a call
+        passed: Set[str] = set()
+        ok = True
+        for n in ast.walk(tree):
+            ref = None
+            if isinstance(n, ast.Name) and n.id == f.name and isinstance(n.ctx, ast.Load):
+                ref = n
+            elif isinstance(n, ast.Attribute) and n.attr == f.name and isinstance(n.ctx, ast.Load):
+                ref = n
+            if ref is None:
+                continue
+            par = getattr(ref, '_alias_parent', None)
+            if not (isinstance(par, ast.Call) and par.func is ref):
+                ok = False
+                break
+            if any(isinstance(x, ast.Starred) for x in par.args) or any(k.arg is None for k in par.keywords):
+                ok = False
+                break
+            off = 1 if (is_method and isinstance(ref, ast.Attribute)) else 0
+            for i, _x in enumerate(par.args):
+                if i + off < len(pos):
+                    passed.add(pos[i + off])
+            for k in par.keywords:
+                passed.add(k.arg)
+        if not ok:
+            continue
+        consts = {k: v for k, v in defaults.items() if k not in passed}
+        if not consts:
+            continue
+        # nested functions that re-bind the name disqualify it
+        for nf in ast.walk(f):
+            if nf is not f and isinstance(nf, _FN + (ast.Lambda,)):
+                for x in ast.walk(nf):
+                    if isinstance(x, (ast.Nonlocal,)):
+                        for nm in x.names:
+                            consts.pop(nm, None)
+        if not consts:
+            continue
+        rebound: Set[str] = set()
+        new_body: List[ast.stmt] = []
+        changed = False
+        for st in f.body:
+            if isinstance(st, ast.If):
+                t = st.test
+                nm = None
+                truth = None
+                if isinstance(t, ast.Compare) and len(t.ops) == 1 and isinstance(t.left, ast.Name) and isinstance(t.ops[0], (ast.Is, ast.IsNot)) \
+                        and isinstance(t.comparators[0], ast.Constant) and t.comparators[0].value is None:
+                    nm = t.left.id
+                    if nm in consts and nm not in rebound:
+                        truth = (consts[nm].value is None) == isinstance(t.ops[0], ast.Is)
+                elif isinstance(t, ast.Name):
+                    nm = t.id
+                    if nm in consts and nm not in rebound:
+                        truth = bool(consts[nm].value)
+                elif isinstance(t, ast.UnaryOp) and isinstance(t.op, ast.Not) and isinstance(t.operand, ast.Name):
+                    nm = t.operand.id
+                    if nm in consts and nm not in rebound:
+                        truth = not bool(consts[nm].value)
+                if truth is not None:
+                    taken = st.body if truth else st.orelse
+                    new_body.extend(taken)
+                    changed = True
+                    count += 1
+                    for x in taken:
+                        for y in ast.walk(x):
+                            if isinstance(y, ast.Name) and isinstance(y.ctx, (ast.Store, ast.Del)):
+                                rebound.add(y.id)
+                    continue
+            for y in ast.walk(st):
+                if isinstance(y, ast.Name) and isinstance(y.ctx, (ast.Store, ast.Del)):
+                    rebound.add(y.id)
+            new_body.append(st)
+        if changed:
+            f.body[:] = new_body or [ast.copy_location(ast.Pass(), f)]
+    return count
 
 
 def inline_module_partials(tree: ast.Module) -> int:
